@@ -393,6 +393,9 @@ def gen_file(rng, natoms=None, ninstr=None, with_qpeaks=True, restraints=True, k
                 toks = ['RESI', str(num), cls]
             if cls and rng.random() < 0.15:
                 toks = toks + [str(rng.choice([7, 30, 1000]))]       # RESI class number alias
+            if cls and num > 0 and i % 3 == 1:
+                # chain-ID form of the residue number (RESI TOL A:12 [alias]); no random draw, so that the streams stay as they were
+                toks = [('AB'[i % 2] + ':' + t) if t == str(num) and k_ == toks.index(str(num)) else t for k_, t in enumerate(toks)]
             add(toks, 'resi', number=num, cls=cls)
             ctx['resi'] = (num, cls)
             # a residue that was copied and not moved yet: an atom line of an earlier residue once more, character by character
